@@ -27,14 +27,14 @@ PDDL_CORE = {
 # predefined types: reserved in the *type* namespace ("object" is the root, "number" the codomain of functions)
 PDDL_TYPES_RESERVED = {"number"}
 # metric section (problem file)
-PDDL_METRIC = {"minimize", "maximize", "total-time", "is-violated"}
+PDDL_METRIC = {"minimize", "maximize", "total-time"}
 # :durative-actions — time specifiers and the special ?duration variable
 PDDL_TEMPORAL = {"at", "over", "start", "end", "all"}
 PDDL_TEMPORAL_VARIABLES = {"duration"}
 # :constraints / :preferences (PDDL 3.0)
 PDDL_CONSTRAINTS = {
     "always", "sometime", "within", "at-most-once", "sometime-after", "sometime-before", "always-within",
-    "hold-during", "hold-after", "preference",
+    "hold-during", "hold-after", "preference", "is-violated",
 }  # fmt: skip
 
 
